@@ -272,6 +272,7 @@ PENDING_REASON = "check not built yet in this round (design in DESIGN.md section
 
 # Extensions made after the seeding waves (appended to the level text / note of the check).
 ADDENDA = {
+    "C01": " Plus the iter(image) entry point (frames == str(image) at that frame, exactly rendered_size).",
     "C12": " Configurations also vary the process environment (TERM_PROGRAM / TERM_PROGRAM_VERSION unset or set, judged against the documented fallback wherever XTVERSION is unsupported, disabled or unanswered, with a reply taking precedence) and the configured query timeout (0.05 / 0.1 / 0.5 s, + 0.03 in thorough) with reply delays on both sides of the 0.1 s default; elapsed virtual time is bounded by the configured timeout per query.",
     "C16": " Field values include equal-but-distinguishable pairs (True/1, float(default)/default, fresh equal tuples); "
            "alteration of existing objects is judged by identity of constituent namespaces and by the type of every "
@@ -285,23 +286,27 @@ ADDENDA = {
            "change (frame size == current size); the frame menu includes mixed absolute/relative frames.",
     "C02": " The format(image, spec) entry point is exercised with every alpha-field form (`#`, thresholds, hex colours "
            "including digits-only ones, black and upper-case), and frames of mixed modes within one multi-page file are "
-           "reached from every other page.",
+           "reached from every other page. "
+           "Terminal backgrounds include components below 16 (zero-padded hex backdrop), and the history queries disabled, render, queries enabled, render is judged on every known background.",
     "C03": " Interaction dimensions: render method set on the instance or class x per-call override (all pairs, kitty "
            "and iterm2, sources smaller and larger than the render with heights not divisible by the line count); "
            "jpeg_quality configured on ITerm2Image x a subclass x the instance (expectation derived from the "
            "configuration, never read back); blend=False with multi-chunk strips; animated PNG/GIF still frames against "
-           "the read-from-file gate.",
+           "the read-from-file gate. "
+           "Per-call method overrides in upper or mixed case; ANIM as effective method (override, +A, set on instance or class) on still file sources with read-from-file on and off (the reference gate treats ANIM on a still image as WHOLE).",
     "C05": " Plus real old-API draw() calls (still / animated, every style, terminal identity and mix setting, pad "
            "width/height below / equal / above the render and terminal-relative) judged on the screen per frame, and "
            "AlignedPadding subclasses (trivial; overriding _get_exact_dimensions_) x relative/absolute dimensions through "
            "resolve, to_exact, pad, render, RenderIterator(), set_padding, draw(): a relative instance behaves as the same "
-           "class with the clamped absolute dimensions.",
+           "class with the clamped absolute dimensions. "
+           "Format specs with an explicit zero height / width (relative to the terminal dimension, unlike an omitted field); animated draw() calls of at least 3 frames whose padded width equals the terminal width with RIGHT alignment (each frame ends in the pending-wrap state).",
     "C06": " Plus: kitty versions around the blend / clear-by-z gate and style-specific draw() parameters (z_index, mix, "
            "compress); histories within one execution (dynamic-size image drawn, terminal resized, drawn again); "
            "INDEFINITE streams of 1-5 frames in both frame-numbering modes; renderables whose render data fixes a "
            "per-iteration size different from render_size; AlignedPadding subclasses; standard output not being the "
            "active terminal (fd 1 / COLUMNS x LINES report another size): all size rules and relative dimensions refer "
-           "to the active terminal.",
+           "to the active terminal. "
+           "Non-default cell ratios (0.4 / 0.5 / 1.0) x automatically sized images over a range of source aspect ratios: the automatic size must fit the area it was fitted to (draw() never validates a dynamic size) and is then placed like any other.",
     "C07": " Delivery disciplines unbuffered / fully buffered / line-buffered (a fault during the hand-over at flush() "
            "delivers any prefix of everything pending); pre-seeked images and renderables; two-draw histories with the "
            "tty attributes changed in between; faults at every write / drain / wait call of the terminal queries that a "
